@@ -2464,6 +2464,72 @@ def rule_name_facts():
     return " | ".join(sorted(set(vals))), ok, sub, ev
 
 
+# =================================================================================================== control registration order (round 6)
+
+
+def control_registration_facts():
+    """(text of the iterable _get_control_managers loops over for the MODEL's controls, registered in insertion order?, generated sources in
+    call order, evidence).  In insertion order = the loop iterates `self._wn.controls()` (or `.items()` of the control registry) directly --
+    no sorted / reversed / set / dict re-keying / list comprehension --, calls categorize_control(<loop variable>) as a direct statement of the
+    loop body, WaterNetworkModel.controls() itself yields straight from `self._controls.items()`, and ControlChecker.register_control appends
+    to an ordered container."""
+    ct = _parse("wntr/sim/core.py")
+    fn = [n for q, n, c in _functions_of(ct) if q == "WNTRSimulator._get_control_managers"]
+    if not fn:
+        raise BrokenTie("sim/core.py has no WNTRSimulator._get_control_managers")
+    fn = fn[0]
+    loops = [st for st in fn.body if isinstance(st, ast.For) and any(isinstance(m, ast.Call) and isinstance(m.func, ast.Name)
+                                                                     and m.func.id == "categorize_control" for m in ast.walk(st))]
+    if not loops:
+        raise BrokenTie("_get_control_managers: no loop calling categorize_control at the top level")
+    model_loops, generated, ev = [], [], []
+    ok = True
+    for lp in loops:
+        src = ast.unparse(lp.iter)
+        tg = lp.target
+        var = tg.elts[-1].id if isinstance(tg, ast.Tuple) and isinstance(tg.elts[-1], ast.Name) else (tg.id if isinstance(tg, ast.Name) else None)
+        direct = [st for st in lp.body if isinstance(st, ast.Expr) and isinstance(st.value, ast.Call) and isinstance(st.value.func, ast.Name)
+                  and st.value.func.id == "categorize_control" and len(st.value.args) == 1 and isinstance(st.value.args[0], ast.Name)
+                  and st.value.args[0].id == var]
+        plain_call = isinstance(lp.iter, ast.Call) and isinstance(lp.iter.func, ast.Attribute) and not lp.iter.args and not lp.iter.keywords
+        is_model = isinstance(lp.iter, ast.Call) and any(isinstance(m, ast.Attribute) and m.attr in ("_wn", "wn") for m in ast.walk(lp.iter)) \
+            or any(isinstance(m, ast.Attribute) and m.attr in ("_wn", "wn") for m in ast.walk(lp.iter))
+        if is_model:
+            model_loops.append(src)
+            good = bool(direct) and plain_call and lp.iter.func.attr in ("controls", "items") and \
+                ast.unparse(lp.iter.func.value) in ("self._wn", "self._wn._controls", "self.wn")
+            ok = ok and good
+            ev.append("core.py:%d `for %s in %s`%s" % (lp.lineno, ast.unparse(tg), src, "" if good else " -- NOT a direct iteration of the model's control registry"))
+        else:
+            good = bool(direct) and plain_call and isinstance(lp.iter.func.value, ast.Name) and lp.iter.func.value.id == "self"
+            ok = ok and good
+            generated.append(lp.iter.func.attr if plain_call else src)
+    if len(model_loops) != 1:
+        ok = False
+        ev.append("expected exactly one loop over the model's controls, found %s" % model_loops)
+    # WaterNetworkModel.controls(): `for k, c in self._controls.items(): yield k, c`
+    mt = _parse("wntr/network/model.py")
+    cf = [n for q, n, c in _functions_of(mt) if q == "WaterNetworkModel.controls"]
+    good = False
+    if cf:
+        body = [st for st in cf[0].body if not (isinstance(st, ast.Expr) and isinstance(st.value, ast.Constant))]
+        if len(body) == 1 and isinstance(body[0], ast.For) and ast.unparse(body[0].iter) == "self._controls.items()" and len(body[0].body) == 1 \
+                and isinstance(body[0].body[0], ast.Expr) and isinstance(body[0].body[0].value, ast.Yield) \
+                and ast.unparse(body[0].body[0].value.value).strip("()") == ast.unparse(body[0].target).strip("()"):
+            good = True
+        ev.append("model.py:%d WaterNetworkModel.controls: `%s`%s" % (cf[0].lineno, ast.unparse(body[0]).split("\n")[0] if body else "", "" if good else " -- not a plain pass-through"))
+    ok = ok and good
+    # ControlChecker: OrderedSet + add
+    kt = _parse("wntr/network/controls.py")
+    init = [n for q, n, c in _functions_of(kt) if q == "ControlChecker.__init__"]
+    reg = [n for q, n, c in _functions_of(kt) if q == "ControlChecker.register_control"]
+    good = bool(init and reg) and any(isinstance(m, ast.Assign) and ast.unparse(m.targets[0]) == "self._controls" and ast.unparse(m.value) == "OrderedSet()"
+                                      for m in ast.walk(init[0])) and any(isinstance(m, ast.Call) and ast.unparse(m.func) == "self._controls.add" for m in ast.walk(reg[0]))
+    ev.append("controls.py ControlChecker keeps its controls in an OrderedSet filled by register_control: %s" % good)
+    ok = ok and good
+    return (model_loops[0] if model_loops else ""), bool(ok), generated, ev
+
+
 # =================================================================================================== Lean output
 
 
@@ -2565,6 +2631,15 @@ def gen_lean(tabs):
             "def ruleNameAssignedIsRegistryKey : Bool := %s" % ("true" if tabs["ruleNameAssignedIsRegistryKey"] else "false"),
             "/-- wntr/network/io.py to_dict replaces an empty control name by the registry key -/",
             "def toDictSubstitutesKeyForEmptyName : Bool := %s" % ("true" if tabs["toDictSubstitutesKeyForEmptyName"] else "false")]
+    for line in tabs["controlRegistrationEvidence"]:
+        out.append(("-- controlRegistration: " + line)[:400])
+    out += ["/-- the iterable WNTRSimulator._get_control_managers loops over when it registers the MODEL's controls -/",
+            "def controlRegistrationOrder : String := %s" % _ls(tabs["controlRegistrationOrder"]),
+            "/-- that loop iterates the control registry directly (no sorted / reversed / re-keying), categorize_control is called in loop order, "
+            "wn.controls() passes the registry order through and ControlChecker keeps registration order -/",
+            "def controlsRegisteredInInsertionOrder : Bool := %s" % ("true" if tabs["controlsRegisteredInInsertionOrder"] else "false"),
+            "/-- the simulator-generated control sources, in the order _get_control_managers registers them after the model's controls -/",
+            "def generatedControlSources : List String := [%s]" % ", ".join(_ls(x) for x in tabs["generatedControlSources"])]
     out.append("end Wntr.Frame.Gen")
     return "\n".join(out) + "\n"
 
@@ -2585,6 +2660,7 @@ def build_tables():
     IR = inp_writer_reads(wntr, inst, R)
     BF = backtrack_facts(wntr, inst, R)
     MIP = in_place_mutations(wntr, inst, R)
+    cro_text, cro_ok, cro_gen, cro_ev = control_registration_facts()
     rn_val, rn_key, rn_sub, rn_ev = rule_name_facts()
     iu, iu_ev = inpfile_units_fact()
     rnr = rule_name_readers(wntr, inst, R)
@@ -2600,6 +2676,8 @@ def build_tables():
         "mutatedInPlace": sorted(MIP), "mutatedInPlaceWhy": {"%s.%s" % k: sorted(v) for k, v in MIP.items()},
         "ruleNameAssignedValue": rn_val, "ruleNameAssignedIsRegistryKey": bool(rn_key), "toDictSubstitutesKeyForEmptyName": bool(rn_sub),
         "ruleNameEvidence": rn_ev,
+        "controlRegistrationOrder": cro_text, "controlsRegisteredInInsertionOrder": cro_ok, "generatedControlSources": cro_gen,
+        "controlRegistrationEvidence": cro_ev,
         "backtrack": BF, "inpfileUnitsAlwaysPassed": iu, "inpfileUnitsEvidence": iu_ev, "ruleNameReaders": rnr,
         "notes": ["ControlAction attribute -> private attribute: %s; attribute names in use: %s; internal attributes: %s"
                   % (json.dumps(mapping, sort_keys=True), attr_names, internal)] + notes
@@ -2783,6 +2861,8 @@ def gen_spec(rng, quick=True, wide=False, p_speed=0.12):
             controls.append({"kind": "time", "time": hyd * rng.choice([1, 2]), "action": {"link": "PX", "attr": "status", "value": 1}})
     kind, over = vary_options(rng, net)
     sp = {"net": net, "controls": controls, "opt_kind": kind, "opt_overrides": over, "edits": gen_edits(rng, net)}
+    if rng.random() < 0.3:
+        add_conflict(rng, sp)
     vc = {}
     for nd in net["nodes"]:
         if nd["type"] == "tank" and rng.random() < 0.35:
@@ -2790,6 +2870,38 @@ def gen_spec(rng, quick=True, wide=False, p_speed=0.12):
     if vc:
         sp["vol_curves"] = vc
     return sp
+
+
+CONFLICT_KEYS = [("zone_open", "night_close"), ("valve_b_day", "valve_a_night"), ("control 2", "control 10"), ("summer", "autumn")]
+
+
+def add_conflict(rng, spec, where=None):
+    """two equal-priority controls on ONE attribute of ONE link that fire at the SAME instant with DIFFERENT values (the later one wins),
+    registered under names whose alphabetical order is the reverse of the order of addition"""
+    net = spec["net"]
+    hyd = net["options"]["hydraulic_timestep"]
+    t = hyd * rng.choice([1, 1, 2])
+    if t > net["options"]["duration"]:
+        t = hyd
+    pipes = [l for l in net["links"] if l["type"] == "pipe"]
+    valves = [l for l in net["links"] if l["type"] == "valve" and l["valve_type"] in ("PRV", "PSV", "FCV", "TCV")]
+    k1, k2 = rng.choice(CONFLICT_KEYS)
+    used = set(c.get("key") for c in spec["controls"])
+    if k1 in used or k2 in used:
+        return
+    if valves and (where == "valve" or (where is None and rng.random() < 0.4)):
+        l = rng.choice(valves)
+        a, b = round(l["setting"] * 0.6, 5), round(l["setting"] * 1.3, 5)
+        acts = [{"link": l["name"], "attr": "setting", "value": a}, {"link": l["name"], "attr": "setting", "value": b}]
+    elif pipes:
+        l = rng.choice(pipes)
+        acts = [{"link": l["name"], "attr": "status", "value": 1}, {"link": l["name"], "attr": "status", "value": 0}]
+        if rng.random() < 0.5:
+            acts.reverse()
+    else:
+        return
+    spec["controls"] += [{"kind": "time", "time": t, "action": acts[0], "key": k1}, {"kind": "time", "time": t, "action": acts[1], "key": k2}]
+    spec["conflict"] = True
 
 
 def volume_curve_rows(rng, tank, disorder=None):
@@ -2961,6 +3073,22 @@ def scenario_specs(rng):
     net["options"]["report_timestep"] = "ALL"
     out.append(("reservoir-leak-status-action", {"net": net, "controls": [{"kind": "time", "time": hyd // 2,
                                                                           "action": {"node": "R0", "attr": "leak_status", "value": True}}]}))
+    # conflicting equal-priority controls at the same instant: which one wins must not depend on the registry NAMES
+    for where in ("pipe", "valve"):
+        sp = {"net": _small_net(pump="POWER", valve=rng.choice(["TCV", "PRV", "FCV"]), steps=3), "controls": []}
+        add_conflict(rng, sp, where)
+        out.append(("conflicting-controls-" + where, sp))
+    sp = {"net": _small_net(pump="POWER", valve=None, steps=3), "controls": []}
+    for i in range(1, 12):   # INP-style names: 'control 10' sorts before 'control 2'
+        if i == 2:
+            act = {"link": "P5", "attr": "status", "value": 0}
+        elif i == 10:
+            act = {"link": "P5", "attr": "status", "value": 1}
+        else:
+            act = {"link": rng.choice(["P3", "P4"]), "attr": "status", "value": 1}
+        sp["controls"].append({"kind": "time", "time": hyd if i in (2, 10) else hyd * rng.choice([1, 2, 3]), "action": act, "key": "control %d" % i})
+    sp["conflict"] = True
+    out.append(("conflicting-controls-inp-names", sp))
     # a tank whose volume curve was typed in with its top rows out of order (add_curve keeps the order); >= 2 hydraulic steps
     net = _small_net(pump=rng.choice(["POWER", "HEAD"]), valve=None, steps=3)
     out.append(("tank-volume-curve-unsorted", {"net": net, "controls": [], "vol_curves": {"T1": volume_curve_rows(rng, net["nodes"][1], rng.choice(["swap-top", "duplicate-top"]))}}))
@@ -3982,6 +4110,30 @@ class Judge:
                 else:
                     out.append(("copy-differs:json-roundtrip", "a model reloaded through to_dict / JSON / from_dict (equal dictionary) simulates "
                                 "differently: " + dj_, {}))
+        # ---- c'. equal models modulo control NAMES: the same spec with its controls registered as 'control 1..N' in insertion order
+        # (what from_dict / read_inpfile call simple controls); wn.to_dict() lists simple controls without any name, so the two
+        # dictionaries are equal whenever no named rule is renamed -- compared here: the whole normalised to_dict
+        if spec.get("conflict") or any(c.get("key") for c in spec.get("controls", [])) or len(spec.get("controls", [])) >= 10:
+            sp2 = copy.deepcopy(spec)
+            for i, c in enumerate(sp2["controls"]):
+                if c["kind"] != "rule":   # a reload keeps a rule's name (= its key when it had none) and renames simple controls
+                    c["key"] = "control %d" % (i + 1)
+            try:
+                wr = build_model(wntr, sp2, fresh=False)
+                same = not dict_diff(d0, to_dict_norm(wr))
+            except Exception as ex:
+                wr, same = None, False
+                self.count("renamed-controls:build-raises-" + type(ex).__name__)
+            if wr is not None and not same:
+                self.count("renamed-controls:dictionary-differs(not judged)")
+            if wr is not None and same:
+                rr = self._run(wr, spec)
+                dr = self._diff(r1, rr, spec, "renamed-controls")
+                self.count("renamed-controls:" + ("same" if dr is None else "differs"))
+                if dr is not None and diff12 is None:
+                    out.append(("reloaded-model-differs:control-order",
+                                "the same model with its controls registered under the names a reload gives them ('control 1..N' in insertion order; "
+                                "equal to_dict) simulates differently: " + dr, {"controls": [(c.get("key"), c.get("time"), c.get("action")) for c in spec["controls"]][:14]}))
         # ---- a'. EpanetSimulator leaves to_dict (and the run-time state) alone; two runs agree
         wn.reset_initial_values()
         Rb = state_dump(wn, self.written)
@@ -4206,6 +4358,7 @@ class C11(Check):
         ctx.cov["overlap_writtenByEpanet_toDictReads"] = ["%s.%s" % x for x in overlap(tabs["writtenByEpanet"], tabs["toDictReads"])]
         ctx.cov["tables"]["inpWriterReads"] = len(tabs["inpWriterReads"])
         ctx.cov["overlap_written_inpWriterReads"] = ["%s.%s" % x for x in overlap(w, tabs["inpWriterReads"])]
+        ctx.cov["controlRegistration"] = [tabs["controlRegistrationOrder"], tabs["controlsRegisteredInInsertionOrder"], tabs["generatedControlSources"]]
         ctx.cov["mutatedInPlace"] = tabs["mutatedInPlaceWhy"]
         ctx.cov["ruleName"] = [tabs["ruleNameAssignedValue"], tabs["ruleNameAssignedIsRegistryKey"], tabs["toDictSubstitutesKeyForEmptyName"]]
         ctx.cov["backtrack_facts"] = {k: v for k, v in tabs["backtrack"].items()}
@@ -4225,6 +4378,10 @@ class C11(Check):
             where = {("%s.%s" % s): tabs["where"]["written"].get("%s.%s" % s, [])[:3] for s in ov}
             broken.append(Broken("proof", "Gen.written ∩ Gen.toDictReads grew",
                                  "slots a run can assign that to_dict reads: %s" % json.dumps(where, sort_keys=True)))
+        if not tabs["controlsRegisteredInInsertionOrder"]:
+            broken.append(Broken("proof", "the simulator no longer registers the model's controls in insertion order",
+                                 "equal-priority controls firing together run in registration order; a reload renames simple controls, so any order "
+                                 "derived from the registry NAMES differs between equal models: " + "; ".join(tabs["controlRegistrationEvidence"])))
         mo = overlap(tabs["mutatedInPlace"], tabs["toDictReads"])
         if mo:
             broken.append(Broken("proof", "Gen.mutatedInPlace ∩ Gen.toDictReads is not empty",
